@@ -1,11 +1,13 @@
 SPEC = {
     "claimed": False,
     "gen": ["teehistorian"],
-    "theorems": ["C17_pins"],
+    "theorems": ["C17_frag_generic", "C17_parsers_stable", "C17_fragmentation", "C17_total", "C17_ticks",
+                 "C17_running_sums", "C17_sums_closed_form", "C17_pins", "C17_nonvacuous", "K17_pin"],
     "allowed_axioms": [],
     "extract": {
-        "LibTw2.Model.Teehistorian": ["read_all", "fuel_for", "doc_ticks", "dmsg_of", "reader_cids_end"],
+        "LibTw2.Model.Teehistorian": ["read_all", "fuel_for", "reader_cids_end"],
     },
-    "components": [{"bin": "teehistorian", "driver": "drv_teehistorian"}],
+    "components": [{"bin": "teehistorian", "driver": "drv_teehistorian",
+                    "timeout": {"quick": 900, "thorough": 3000}}],
     "release": False,
 }
